@@ -48,7 +48,9 @@ pub fn run_c08(cx: &Ctx) -> i32 {
     let space = iter_space(cx);
     let alphabet = spaces::sigma4();
     let max_len = if cx.quick() { 3 } else { 4 };
-    let texts = space::texts(&alphabet, max_len);
+    let mut texts = space::texts(&alphabet, max_len);
+    // 3- and 4-byte characters (how far an iterator steps after an empty match)
+    texts.extend(space::texts(&['a', '€', '😀'], 2).into_iter().filter(|t| !t.bytes().all(|b| b == b'a')));
     let tallies = par::run_workers(32, |_w, claimer| {
         engine::quiet_panics();
         engine::set_sweep_horizons(40_000, 5_000);
@@ -260,7 +262,7 @@ pub fn run_c08(cx: &Ctx) -> i32 {
         t,
         Finish {
             rule: format!(
-                "every pattern of {} (\\G and \\K at every position) x every text over {:?} up to length {}; the real Matches iterator is driven to None (or to the horizon len+2) and polled twice more; (1) every pattern: strictly increasing, non-overlapping, start >= previous end, terminates, nothing after None/Err; (2) scoped patterns outside class F1: the whole sequence equals the iteration model over the reference matcher (skipped-empty-match flag for \\G included); (3) otherwise, without \\G: equals the model over the engine's own find_from_pos; error histories: the same iteration with backtrack limits 0,1,2 yields a prefix of the unlimited sequence, then at most one Err, then nothing; states = distinct (last_end,last_match) read from the iterator's Debug output after every next(); non-trivial = VM-compiled (pattern,text) whose reference iteration yields at least one match",
+                "every pattern of {} (\\G and \\K at every position) x every text over {:?} up to length {} and every text over [a, euro sign, emoji] up to length 2; the real Matches iterator is driven to None (or to the horizon len+2) and polled twice more; (1) every pattern: strictly increasing, non-overlapping, start >= previous end, terminates, nothing after None/Err; (2) scoped patterns outside class F1: the whole sequence equals the iteration model over the reference matcher (skipped-empty-match flag for \\G included); (3) otherwise, without \\G: equals the model over the engine's own find_from_pos; error histories: the same iteration with backtrack limits 0,1,2 yields a prefix of the unlimited sequence, then at most one Err, then nothing; states = distinct (last_end,last_match) read from the iterator's Debug output after every next(); non-trivial = VM-compiled (pattern,text) whose reference iteration yields at least one match",
                 space.describe(), alphabet, max_len
             ),
             exhaustive: true,
@@ -279,7 +281,9 @@ pub fn run_c10(cx: &Ctx) -> i32 {
     let space = iter_space(cx);
     let alphabet = spaces::sigma4();
     let max_len = if cx.quick() { 3 } else { 4 };
-    let texts = space::texts(&alphabet, max_len);
+    let mut texts = space::texts(&alphabet, max_len);
+    // 3- and 4-byte characters (how far an iterator steps after an empty match)
+    texts.extend(space::texts(&['a', '€', '😀'], 2).into_iter().filter(|t| !t.bytes().all(|b| b == b'a')));
     let tallies = par::run_workers(32, |_w, claimer| {
         engine::quiet_panics();
         engine::set_sweep_horizons(40_000, 5_000);
@@ -310,7 +314,12 @@ pub fn run_c10(cx: &Ctx) -> i32 {
                 }
                 let matches: Vec<(usize, usize)> = fi.items.iter().map(|i| i.clone().unwrap()).collect();
                 if matches.iter().any(|&(s, e)| !(s <= e && e <= text.len() && text.is_char_boundary(s) && text.is_char_boundary(e))) {
-                    t.count("skipped_invalid_spans(left to C05)", 1);
+                    // the spans themselves are C05's subject; a split that dies on them is C10's
+                    if let Some(p) = engine::split_log(&re, text).panic {
+                        viol(&mut t, text, format!("split panics: {} (find_iter matches: {:?})", p, matches));
+                    } else {
+                        t.count("skipped_invalid_spans(left to C05)", 1);
+                    }
                     continue;
                 }
                 if matches.windows(2).any(|w| w[1].0 < w[0].1) {
@@ -375,7 +384,7 @@ pub fn run_c10(cx: &Ctx) -> i32 {
         t,
         Finish {
             rule: format!(
-                "every pattern of {} x every text over {:?} up to length {} x limits 0..5; split and splitn are driven to None and polled twice more (fusedness); oracle: pieces = gaps between consecutive find_iter matches (one more piece than matches), interleaving pieces and matched texts rebuilds the input byte for byte, splitn(n) = min(n, pieces) items: the first n-1 of split and the untouched remainder, n = 0 yields nothing; non-trivial = (pattern,text) with at least one match",
+                "every pattern of {} x every text over {:?} up to length {} and every text over [a, euro sign, emoji] up to length 2 x limits 0..5; split and splitn are driven to None and polled twice more (fusedness); oracle: pieces = gaps between consecutive find_iter matches (one more piece than matches), interleaving pieces and matched texts rebuilds the input byte for byte, splitn(n) = min(n, pieces) items: the first n-1 of split and the untouched remainder, n = 0 yields nothing; non-trivial = (pattern,text) with at least one match",
                 space.describe(), alphabet, max_len
             ),
             exhaustive: true,
@@ -394,7 +403,9 @@ pub fn run_c11(cx: &Ctx) -> i32 {
     let space = iter_space(cx);
     let alphabet = spaces::sigma4();
     let max_len = 3;
-    let texts = space::texts(&alphabet, max_len);
+    let mut texts = space::texts(&alphabet, max_len);
+    // 3- and 4-byte characters (how far an iterator steps after an empty match)
+    texts.extend(space::texts(&['a', '€', '😀'], 2).into_iter().filter(|t| !t.bytes().all(|b| b == b'a')));
     let templates: Vec<&str> = vec!["x", "$0", "$1", "${g1}", "$$", "<$0|$1>", "", "$é", "[$π]"];
     let tallies = par::run_workers(32, |_w, claimer| {
         engine::quiet_panics();
@@ -517,7 +528,7 @@ pub fn run_c11(cx: &Ctx) -> i32 {
         t,
         Finish {
             rule: format!(
-                "every pattern of {} (group 1 named g1 where the pattern has no references) x every text over {:?} up to length {} x limits 0..3 x replacers: templates {:?} as &str, &String and Cow, NoExpand, constant and identity closures; oracle: the first n matches of the crate's own captures_iter (all if n = 0) replaced by the reference expansion (frmc-core/src/expandref.rs), every other byte copied, Cow::Borrowed iff there is no match; fast path == slow path (template without $, NoExpand of the same string, closure returning it); with backtrack limits 0 and 1 the result is an Err, never a panic; non-trivial = (pattern,text) with at least one match",
+                "every pattern of {} (group 1 named g1 where the pattern has no references) x every text over {:?} up to length {} and every text over [a, euro sign, emoji] up to length 2 x limits 0..3 x replacers: templates {:?} as &str, &String and Cow, NoExpand, constant and identity closures; oracle: the first n matches of the crate's own captures_iter (all if n = 0) replaced by the reference expansion (frmc-core/src/expandref.rs), every other byte copied, Cow::Borrowed iff there is no match; fast path == slow path (template without $, NoExpand of the same string, closure returning it); with backtrack limits 0 and 1 the result is an Err, never a panic; non-trivial = (pattern,text) with at least one match",
                 space.describe(), alphabet, max_len, templates
             ),
             exhaustive: true,
